@@ -109,6 +109,15 @@ func c09Trace(plan *Plan, bubble bool, midCall func(), st *Stats) (string, *Viol
 
 // c09Ranges checks the tagged random lines.
 func c09Ranges(i int, r *Resp) *Violation {
+	if r.Kind == rError {
+		// every random built-in in these worlds is called with bounds that define a non-empty range
+		for _, fn := range []string{"dice", "random_range", "random"} {
+			if strings.Contains(r.Err, "function "+fn+" failed") {
+				return &Violation{Clause: "C09.range", OpIndex: i, Observed: r.Err, Note: fn + " refused bounds that define a non-empty range: it must return a value in that range"}
+			}
+		}
+		return nil
+	}
 	if r.Kind != rLine {
 		return nil
 	}
